@@ -490,8 +490,17 @@ pub fn eval_ref(e: &Expr, env: &dyn Env) -> Result<Q, RefErr> {
         Expr::Fact(p) => env.fact(p).ok_or(RefErr::Unspecified("fact unknown")),
         Expr::Paren(a) => eval_ref(a, env),
         Expr::Bin(op, a, b) => {
-            let a = eval_ref(a, env)?;
-            let b = eval_ref(b, env)?;
+            // both operands are always evaluated and "unspecified" (size guards, unknown facts) dominates an
+            // error of the other operand: the tool evaluates the right operand first, so an operand the
+            // reference refuses to compute must never hide behind its sibling's error
+            let (ra, rb) = (eval_ref(a, env), eval_ref(b, env));
+            for r in [&ra, &rb] {
+                if let Err(RefErr::Unspecified(w)) = r {
+                    return Err(RefErr::Unspecified(w));
+                }
+            }
+            let a = ra?;
+            let b = rb?;
             match op {
                 Op::Add | Op::Sub => {
                     let sign = |x: BigRational| if *op == Op::Sub { -x } else { x };
@@ -534,8 +543,14 @@ pub fn eval_ref(e: &Expr, env: &dyn Env) -> Result<Q, RefErr> {
         }
         Expr::Pow(a, n) => pow_ref(eval_ref(a, env)?, BigRational::from_integer(BigInt::from(*n))),
         Expr::PowE(a, x) => {
-            let a = eval_ref(a, env)?;
-            let x = eval_ref(x, env)?;
+            let (ra, rx) = (eval_ref(a, env), eval_ref(x, env));
+            for r in [&ra, &rx] {
+                if let Err(RefErr::Unspecified(w)) = r {
+                    return Err(RefErr::Unspecified(w));
+                }
+            }
+            let a = ra?;
+            let x = rx?;
             if x.unit != UState::Plain {
                 return Err(RefErr::PowerWithUnit);
             }
@@ -557,7 +572,13 @@ pub fn eval_ref(e: &Expr, env: &dyn Env) -> Result<Q, RefErr> {
             Ok(Q { si: a.si, dim, unit: UState::Known(s) })
         }
         Expr::Call(name, args) => {
-            let vals: Result<Vec<Q>, RefErr> = args.iter().map(|a| eval_ref(a, env)).collect();
+            let all: Vec<Result<Q, RefErr>> = args.iter().map(|a| eval_ref(a, env)).collect();
+            for r in &all {
+                if let Err(RefErr::Unspecified(w)) = r {
+                    return Err(RefErr::Unspecified(w));
+                }
+            }
+            let vals: Result<Vec<Q>, RefErr> = all.into_iter().collect();
             let vals = vals?;
             let (x, digits) = match (*name, vals.len()) {
                 ("floor", 1) | ("ceil", 1) | ("round", 1) => (&vals[0], 0i64),
